@@ -186,6 +186,9 @@ class Exec:
     def opnd(self, o):
         if "h" in o:
             return self.H[o["h"]]
+        if "hd" in o:      # the tensor's own ndarray as a plain (constant) operand - `x.data`
+            t = self.H[o["hd"]]
+            return t.data if self.be == "mg" else t
         if "s" in o:
             return dec_num(o["s"])
         if "arr" in o:
@@ -383,6 +386,9 @@ class Exec:
                 seed = float(seed)
             elif s.get("seed_kind") == "tensor" and not isinstance(seed, mg.Tensor):
                 seed = mg.tensor(seed)
+            if s.get("seed_order") == "F" and isinstance(seed, np.ndarray) and seed.ndim >= 2:
+                seed = np.asfortranarray(seed)
+                self.owned.append((seed, seed.copy()))
             self.last_seed = seed if isinstance(seed, np.ndarray) else None
             self.last_seed_copy = None if self.last_seed is None else self.last_seed.copy()
             self.H[s["h"]].backward(seed)
